@@ -610,26 +610,54 @@ theorem minSkip_map_some (l : List Rat) : minSkip (l.map some) = listMin l := by
 
 theorem maxR_self (a : Rat) : maxR a a = a := by unfold maxR; simp
 
-/-- the code's drawdown is the standard drawdown of the series WITHOUT its first point -/
-theorem maxDrawdown_pctChange (b0 b1 : Rat) (bs : List Rat) (h0 : 0 < b0) (h1 : b1 ≠ 0)
-    (hs : ∀ x ∈ bs, x ≠ 0) :
-    Jesse.Metrics.maxDrawdown (pctChange (b0 :: b1 :: bs)) = Spec.Metrics.maxDrawdown (b1 :: bs) := by
-  have hall : ∀ x ∈ b1 :: bs, x ≠ 0 := by
-    intro x hx; rcases List.mem_cons.mp hx with hx | hx
-    · rw [hx]; exact h1
-    · exact hs x hx
+theorem fillna0_pctTail (xs : List Rat) : ∀ p : Rat, fillna0 (pctTail p xs) = pctTail p xs := by
+  induction xs with
+  | nil => intro p; rfl
+  | cons x xs ih => intro p; simp only [pctTail, fillna0, ih]
+
+/-- the ratio list `prices / running max` of the repaired pipeline is the reference one, start included -/
+theorem ddRatios_pctChange (b0 : Rat) (bs : List Rat) (h0 : 0 < b0) (hs : ∀ x ∈ bs, x ≠ 0) :
+    divSkip (ddPrices (pctChange (b0 :: bs))) (expandingMaxSkip none (ddPrices (pctChange (b0 :: bs))))
+      = (peakRatios (b0 :: bs)).map some := by
   have hk : (0:Rat) < 1 / b0 := by positivity
-  unfold Jesse.Metrics.maxDrawdown Spec.Metrics.maxDrawdown ddPrices
-  simp only [pctChange, cumprodSkip]
-  rw [cumprod_pctTail (b1 :: bs) b0 1 (ne_of_gt h0) hall]
-  simp only [List.map_cons, expandingMaxSkip, divSkip, minSkip, peakRatios, peakRatiosFrom]
-  have := ratios_scaled bs (1 / b0) b1 hk
-  rw [this, maxR_self, mul_div_mul_left _ _ (ne_of_gt hk)]
-  have e : minSkip (List.map some (peakRatiosFrom b1 bs)) = listMin (peakRatiosFrom b1 bs) :=
-    minSkip_map_some _
-  rw [e]
-  simp only [listMin]
-  cases listMin (peakRatiosFrom b1 bs) <;> rfl
+  have h1 : (1:Rat) * (0 + 1) = 1 := by norm_num
+  have hb : (1:Rat) = 1 / b0 * b0 := by field_simp
+  unfold ddPrices
+  simp only [pctChange, fillna0, fillna0_pctTail, cumprodSkip, h1]
+  rw [cumprod_pctTail bs b0 1 (ne_of_gt h0) hs]
+  simp only [expandingMaxSkip, divSkip, peakRatios, peakRatiosFrom, List.map_cons, maxR_self]
+  have := ratios_scaled bs (1 / b0) b0 hk
+  rw [← hb] at this
+  rw [this, div_self (ne_of_gt h0)]
+  norm_num
+
+/-- the repaired drawdown is the standard drawdown of the whole balance series, the start included -/
+theorem maxDrawdown_pctChange (b0 : Rat) (bs : List Rat) (h0 : 0 < b0) (hs : ∀ x ∈ bs, x ≠ 0) :
+    Jesse.Metrics.maxDrawdown (pctChange (b0 :: bs)) = Spec.Metrics.maxDrawdown (b0 :: bs) := by
+  unfold Jesse.Metrics.maxDrawdown Spec.Metrics.maxDrawdown
+  rw [ddRatios_pctChange b0 bs h0 hs, minSkip_map_some]
+
+theorem minR_sub_one (x m : Rat) : minR (x - 1) (m - 1) = minR x m - 1 := by
+  unfold minR; grind
+
+theorem minSkip_subOne (l : List (Option Rat)) : minSkip (subOneSkip l) = (minSkip l).map (· - 1) := by
+  induction l with
+  | nil => rfl
+  | cons o os ih =>
+    unfold subOneSkip at *
+    cases o with
+    | none => simpa [minSkip] using ih
+    | some x =>
+      simp only [List.map_cons, Option.map_some, minSkip, ih]
+      cases minSkip os with
+      | none => rfl
+      | some m => simp [minR_sub_one]
+
+/-- the drawdown inside `calmar_ratio` is the absolute value of the same standard drawdown -/
+theorem calmarDrawdown_pctChange (b0 : Rat) (bs : List Rat) (h0 : 0 < b0) (hs : ∀ x ∈ bs, x ≠ 0) :
+    calmarDrawdown (pctChange (b0 :: bs)) = (Spec.Metrics.maxDrawdown (b0 :: bs)).map absR := by
+  unfold calmarDrawdown Spec.Metrics.maxDrawdown
+  rw [ddRatios_pctChange b0 bs h0 hs, minSkip_subOne, minSkip_map_some]
 
 theorem listMin_cons_le (x : Rat) (xs : List Rat) : ∃ m, listMin (x :: xs) = some m ∧ m ≤ x := by
   simp only [listMin]
@@ -644,20 +672,6 @@ theorem spec_maxDrawdown_nonpos (e : Rat) (es : List Rat) (he : e ≠ 0) :
   obtain ⟨m, hm, hle⟩ := listMin_cons_le 1 (peakRatiosFrom e es)
   rw [hm]
   exact ⟨m - 1, rfl, by linarith⟩
-
-theorem minR_idem_left (a m : Rat) : minR a (minR a m) = minR a m := by
-  unfold minR; grind
-
-/-- when the first recorded day is not below the starting balance, dropping the start changes nothing -/
-theorem spec_maxDrawdown_drop_start (b0 b1 : Rat) (bs : List Rat) (h0 : b0 ≠ 0) (h1 : b1 ≠ 0)
-    (hle : b0 ≤ b1) :
-    Spec.Metrics.maxDrawdown (b0 :: b1 :: bs) = Spec.Metrics.maxDrawdown (b1 :: bs) := by
-  unfold Spec.Metrics.maxDrawdown
-  have hm : maxR b0 b1 = b1 := by rw [maxR_eq_max]; exact max_eq_right hle
-  simp only [peakRatios, peakRatiosFrom, maxR_self, hm, div_self h0, div_self h1, listMin]
-  cases listMin (peakRatiosFrom b1 bs) with
-  | none => simp [minR]
-  | some m => simp only [minR_idem_left]
 
 /-! ### daily returns and their statistics -/
 
@@ -763,14 +777,19 @@ theorem positionsValue_eq (rs : List SpotRoute) :
   | nil => rfl
   | cons r rs ih => simp [positionsValue, Spec.Metrics.sum, ih]
 
-theorem reserved_zero (rs : List SpotRoute) (h : ∀ r ∈ rs, r.reservedQuote = 0) :
-    Spec.Metrics.sum (rs.map (·.reservedQuote)) = 0 := by
+theorem reservedTotal_eq (rs : List SpotRoute) :
+    reservedTotal rs = Spec.Metrics.sum (rs.map (·.reservedQuote)) := by
   induction rs with
   | nil => rfl
-  | cons r rs ih =>
-    simp only [List.map_cons, Spec.Metrics.sum, h r List.mem_cons_self,
-      ih (fun x hx => h x (List.mem_cons_of_mem _ hx))]
-    ring
+  | cons r rs ih => simp [reservedTotal, Spec.Metrics.sum, ih]
+
+/-- a sum does not depend on the order of its terms -/
+theorem sum_perm {l₁ l₂ : List Rat} (h : l₁.Perm l₂) : Spec.Metrics.sum l₁ = Spec.Metrics.sum l₂ := by
+  induction h with
+  | nil => rfl
+  | cons x _ ih => simp only [Spec.Metrics.sum, ih]
+  | swap x y l => simp only [Spec.Metrics.sum]; ring
+  | trans _ _ ih1 ih2 => exact ih1.trans ih2
 
 /-! ### the chunk of the fast simulator -/
 
